@@ -347,6 +347,7 @@ class Crate:
                     rs = self.roots_of(name)
                     if rs and rs != {name}:
                         del self.bodies[name]
+        self._link()
         self.adts = {a["path"]: a for a in self.raw["adts"]}
         self.statics = self.raw["statics"]
         self.aliases = {a["path"]: a["ty"] for a in self.raw["aliases"]}
@@ -354,6 +355,12 @@ class Crate:
         self.impls = self.raw["impls"]
         self.fmt = self.raw["fmt"]
         self.binlits = self.raw["binlits"]
+
+    def _link(self):
+        for b in self.raw_bodies.values():
+            b.crate = self
+        for b in self.bodies.values():
+            b.crate = self
 
     def roots_of(self, name):
         """The functions known to the rules through which the code of `name` is analysed: {name} for a known function;
